@@ -1,6 +1,8 @@
 package checks
 
 import (
+	"bytes"
+
 	"verif/harness/internal/core"
 )
 
@@ -59,7 +61,7 @@ func c04Frames(r *core.Rand, n int, maxBody int) [][]byte {
 
 func c04Worker(c *core.Collector, x *Ctx) {
 	c.Rule = "streams of 1..8 valid unfragmented frames (both versions, bodies 0..1023 incl. escape-dense ones whose escaped form exceeds the 1023-byte read buffer, back-to-back delimiters) x partitions: " +
-		"byte-by-byte, one frame per read, maximal 1023-byte reads, ALL 1-cuts and ALL 2-cuts of short streams (<=L bytes), cuts inside every escape pair and around every delimiter, random k-cuts (k<=40). " +
+		"byte-by-byte, one frame per read, maximal 1023-byte reads, ALL 1-cuts and ALL 2-cuts of short streams (<=L bytes), cuts inside every escape pair and around every delimiter, random k-cuts (k<=40); frames of maximal wire size (1015..1023 special bytes, both header versions) with every cut in their first and last 40 bytes. " +
 		"non-trivial = partition with at least one cut strictly inside a frame; distinct by hash of the reads"
 	cats := map[string]bool{"stream": true}
 	L := c.N(110, 260)
@@ -170,5 +172,32 @@ func c04Worker(c *core.Collector, x *Ctx) {
 			run("random-k-cuts", frames, cuts)
 		}
 	})
+	// (3) frames of maximal wire size: bodies of 1015..1023 bytes made of 0x7e/0x7d only (every byte doubles on the wire: up to
+	// 2066 bytes for a 2019 header), between two small frames; every single cut in the first and last 40 bytes of the big frame,
+	// and every pair (cut inside the tail, cut k bytes earlier) for the reads a 1023-byte buffer would produce
+	nbig := c.N(24, 96)
+	core.ParallelFor(nbig, ncpu(), func(i int) {
+		r := core.NewRand(c.Seed, "c04big", uint64(i))
+		v19 := i%2 == 1
+		l := 1023 - i/2%9
+		body := c04Body(r, 1, l)
+		if i%3 == 0 { // all 0x7d / all 0x7e
+			body = bytes.Repeat([]byte{[]byte{0x7d, 0x7e}[i/3%2]}, l)
+		}
+		a := hookFrame(v19, 0x0002, r.U16(), false, 0, 0, nil)
+		b := hookFrame(v19, 0x0900, r.U16(), false, 0, 0, body)
+		d := hookFrame(v19, 0x0200, r.U16(), false, 0, 0, c04Body(r, 2, 28))
+		frames := [][]byte{a, b, d}
+		s0, e0 := len(a), len(a)+len(b)
+		run("big-frame", frames, nil)
+		for k := 1; k <= 40; k++ {
+			run("big-frame-tail-cut", frames, []int{e0 - k})
+			run("big-frame-head-cut", frames, []int{s0 + k})
+			run("big-frame-tail-cut", frames, []int{s0 + 1023, e0 - k})
+			run("big-frame-tail-cut", frames, []int{1023, 2046, e0 - k})
+		}
+		c.Count("maximal_size_frames", 1)
+	})
+	c.Floor("maximal_size_frames", 10)
 	c.Floor("streams_with_exhaustive_1_and_2_cuts", 10)
 }
